@@ -106,6 +106,9 @@ def _values(family):
     if family == "empty":
         # present but empty: still values the application set
         base.update(pushname="", chat_dns_domain="", fdid="", edge_routing_info=b"", id=b"", expid=b"", login="", mcc="", mnc="")
+    if family == "long":
+        # values well beyond the usual sizes: routing info of a few hundred bytes, a long display name (the file grows past 1 KiB)
+        base.update(edge_routing_info=bytes((i * 7 + 1) % 256 for i in range(300)), pushname="N" + "a long name " * 60 + "end", id=bytes(range(20)), expid=bytes(range(16)))
     if family == "zeros":
         base.update(id=bytes(20), expid=bytes(16), edge_routing_info=b"\x00", server_static_public=PublicKey(bytes(32)), mcc="000", mnc="000", pushname="0")
     return base
@@ -181,7 +184,7 @@ def h_roundtrip(ctx, nrandom, how=None):
     with _Env() as env:
         fmt = ctx.choice("format", ["json", "keyval"])
         how = how or ctx.choice("load_by", ["path-with-extension", "path-without-extension", "profile-name", "fresh-profile-name", "profile-object"])
-        family = ctx.choice("values", ["plain", "unicode", "zeros", "surrogate", "empty"])
+        family = ctx.choice("values", ["plain", "unicode", "zeros", "surrogate", "empty", "long"])
         locale_enc = ctx.choice("locale_encoding", ["utf-8", "ascii"])
         name, subset = _subset(ctx, nrandom)
         if fmt == "keyval" and family in ("unicode", "surrogate", "empty"):
